@@ -31,19 +31,39 @@ TraceInit ==
     /\ l = 1 /\ pool = <<>> /\ hist = <<>> /\ vids = <<>> /\ bad = ""
     /\ TLCSet(tid, 0)
 
+\* objects outside the model (inconsistent by the program's own doing); a call on such an object promises nothing
+DeadObj == [OpaqueObj(<<>>, <<>>, 0, 0, <<>>) EXCEPT !.st = "dead"]
+Garbage(e) == \E k \in 1..Len(e.args) : e.args[k] \in 1..Len(pool) /\ pool[e.args[k]].st = "dead"
+
 \* ---- the spec action an event claims to be
 ActionOf(e) ==
     CASE e.op = "New" -> /\ pool' = Append(pool, ObjOfCores(e.cores))
                          /\ hist' = Append(hist, NewEv(e.cores))
       \* objects created outside the model (float data): only dims are known, the value is opaque
-      [] e.op = "NewOpaque" -> /\ pool' = Append(pool, OpaqueObj(e.rd, e.cd, e.r0, e.rN, [t \in 1..(Len(e.rd) + 1) |-> UNK]))
+      \* (an object the program itself built inconsistently - e.g. a test preparing an error case - is outside the model: dead)
+      [] e.op = "NewOpaque" -> /\ pool' = Append(pool, IF e.obs[Len(pool) + 1].ok
+                                                        THEN OpaqueObj(e.rd, e.cd, e.r0, e.rN, [t \in 1..(Len(e.rd) + 1) |-> UNK])
+                                                        ELSE DeadObj)
                                /\ hist' = Append(hist, [op |-> "New", new |-> <<>>, mod |-> <<>>])
       \* a solver / integrator / data-driven routine: documented to return new objects (or an argument itself,
       \* "same" > 0) and to change none of its arguments: no target, results opaque with the observed dims
       [] e.op = "Routine" ->
             Step([op |-> "Routine", name |-> e.name, args |-> e.args],
-                 [k \in 1..Len(e.fresh) |-> OpaqueObj(e.fresh[k].rd, e.fresh[k].cd, e.fresh[k].r0, e.fresh[k].rN,
-                                                      [t \in 1..(Len(e.fresh[k].rd) + 1) |-> UNK])], <<>>)
+                 [k \in 1..Len(e.fresh) |-> IF Garbage(e) THEN DeadObj
+                                            ELSE OpaqueObj(e.fresh[k].rd, e.fresh[k].cd, e.fresh[k].r0, e.fresh[k].rN,
+                                                           [t \in 1..(Len(e.fresh[k].rd) + 1) |-> UNK])], <<>>)
+      \* a call that is allowed to change the listed objects (in-place method, overwrite = TRUE, a call that raised, or
+      \* code outside the API writing into an object): the targets become opaque with the observed dims, every other
+      \* live object must keep its value; results are opaque with the observed dims
+      [] e.op = "Havoc" ->
+            Step([op |-> "Havoc", name |-> e.name, args |-> e.args],
+                 [k \in 1..Len(e.fresh) |-> IF Garbage(e) THEN DeadObj
+                                            ELSE OpaqueObj(e.fresh[k].rd, e.fresh[k].cd, e.fresh[k].r0, e.fresh[k].rN,
+                                                           [t \in 1..(Len(e.fresh[k].rd) + 1) |-> UNK])],
+                 [k \in 1..Len(e.args) |->
+                    <<e.args[k], IF Garbage(e) \/ (e.name = "external" /\ ~e.obs[e.args[k]].ok) THEN DeadObj
+                                 ELSE OpaqueObj(e.dims[k].rd, e.dims[k].cd, e.dims[k].r0, e.dims[k].rN,
+                                                [t \in 1..(Len(e.dims[k].rd) + 1) |-> UNK])>>])
       [] e.op = "Full" -> Full(e.a)
       [] e.op = "Matricize" -> Matricize(e.a)
       [] e.op = "Elements" -> Elements(e.a)
@@ -88,7 +108,7 @@ ObjBad(i) ==
         ELSE IF m.st = "exact" /\ (ob.r0 # m.d.r0 \/ ob.rN # m.d.rN) THEN "boundary_ranks"
         ELSE IF m.st = "exact" /\ (~ob.isint \/ ob.v # m.d.v) THEN (IF tgt THEN "value" ELSE "operand_changed")
         ELSE IF ~tgt /\ i <= Len(vids) /\ ob.vid # vids[i] THEN "operand_changed"
-        ELSE IF \E t \in 1..Len(m.rk) : ob.rk[t] > m.rk[t] THEN "rank"
+        ELSE IF \E t \in 1..Len(m.rk) : m.rk[t] < UNK /\ ob.rk[t] > m.rk[t] THEN "rank"      \* bounds >= UNK: unknown
         ELSE IF ~(m.lo \subseteq ToSet(ob.lo)) \/ ~(m.ro \subseteq ToSet(ob.ro)) THEN "isometry"
         ELSE ""
 
